@@ -16,7 +16,15 @@ Inductive c15case :=
 | CKV (comp cks : N) (data : bytes) (put_ok : bool) (got : res bytes)
 (* a metadata value as found in the store (datastore/repo_local.go saveToStore): key class, its format byte, its
    length, and whether every sampled single-bit alteration of its payload was reported as an error on reading *)
-| CMeta (class fmtbyte len : N) (all_detected : bool).
+| CMeta (class fmtbyte len : N) (all_detected : bool)
+(* round 4: burst alterations.  [s0] is a value produced by the real SerializeData; every element of
+   [alts] is (position, xor mask of 1..5 bytes, class the Go DeserializeData returned with
+   uncompress = true, the same with uncompress = false) for s0 with the mask xor-ed in at the position *)
+| CBurst (s0 : bytes) (alts : list (N * bytes * oclass * oclass))
+(* hash/crc32.ChecksumIEEE of a byte string and of the string with each mask xor-ed in *)
+| CCrc (data : bytes) (go0 : N) (alts : list (N * bytes * N))
+(* a burst in a large stored value (payload regenerated from its size; judged by the oracle only) *)
+| CBigBurst (len comp cks : N) (pos : N) (mask : bytes) (go : oclass).
 
 Definition res_eqb {A} (eqb : A -> A -> bool) (a b : res A) : bool :=
   match a, b with
@@ -37,6 +45,25 @@ Fixpoint set_nth (l : bytes) (n : nat) (b : N) : bytes :=
   | x :: r, S n' => x :: set_nth r n' b
   end.
 
+Fixpoint xor_at (l : bytes) (n : nat) (mask : bytes) : bytes :=
+  match l, n with
+  | [], _ => []
+  | x :: r, O => match mask with [] => l | m :: mr => N.lxor x m :: xor_at r O mr end
+  | x :: r, S n' => x :: xor_at r n' mask
+  end.
+
+(* the shape the burst theorems speak about: not all zero, and either at most 4 bytes, or 5 bytes
+   whose altered bits fit a window of 32 bits (low j bits of the first untouched, only the low j
+   bits of the last touched) *)
+Definition burst_ok (mask : bytes) : bool :=
+  existsb (fun x => negb (x =? 0)) mask && forallb (fun x => x <? 256) mask &&
+  (Nat.leb (length mask) 4 ||
+   match mask with
+   | [a; _; _; _; z] =>
+     existsb (fun j => (a mod 2 ^ j =? 0) && (z <? 2 ^ j)) [0;1;2;3;4;5;6;7;8]
+   | _ => false
+   end).
+
 Definition model_ok (c : c15case) : bool :=
   match c with
   | CSer data comp lvl cks c dres go_s go_dt go_df =>
@@ -52,6 +79,13 @@ Definition model_ok (c : c15case) : bool :=
   | CBigCorrupt _ _ _ _ _ _ => true
   | CKV _ _ data put_ok got => put_ok && res_eqb bytes_eqb got (Ok data)
   | CMeta class f _ det => if class =? n_repoKey then (dec_cks f =? n_CRC32) && det else true
+  | CBurst s0 alts =>
+    forallb (fun '(pos, mask, go_t, go_f) =>
+      let r := deserialize (oracle Err Err) (xor_at s0 (N.to_nat pos) mask) false in
+      oclass_eqb (class_of r) go_f && (if is_err r then oclass_eqb go_t OErr else true)) alts
+  | CCrc data go0 alts =>
+    (crc32 data =? go0) && forallb (fun '(pos, mask, g) => crc32 (xor_at data (N.to_nat pos) mask) =? g) alts
+  | CBigBurst _ _ _ _ _ _ => true
   end.
 
 (* property-level oracle evaluated on what the implementation returned.
@@ -108,6 +142,29 @@ Definition spec_class (c : c15case) : nat :=
   | CMeta class f _ det =>
     (* stored repos are saved with a checksum, so an altered stored repo is reported, not loaded *)
     if (class =? n_repoKey) && negb ((dec_cks f =? n_CRC32) && det) then 3%nat else 0%nat
+  | CBurst s0 alts =>
+    if existsb (fun '(_, _, go_t, go_f) => oclass_eqb go_t OPanic || oclass_eqb go_f OPanic) alts then 1%nat
+    else match s0 with
+         | f :: _ =>
+           if (dec_cks f =? n_CRC32) && is_ok (deserialize (oracle Err Err) s0 false)
+              && existsb (fun '(pos, mask, go_t, go_f) =>
+                   (5 <=? pos) && Nat.leb (N.to_nat pos + length mask) (length s0) && burst_ok mask
+                   && negb (oclass_eqb go_t OErr && oclass_eqb go_f OErr)) alts
+           then 3%nat else 0%nat
+         | [] => 0%nat
+         end
+  | CCrc data go0 alts =>
+    (* C15_crc32_burst_changes_checksum, evaluated on what hash/crc32 returned *)
+    if existsb (fun '(pos, mask, g) =>
+         Nat.leb (N.to_nat pos + length mask) (length data) && burst_ok mask && (g =? go0)) alts
+    then 5%nat else 0%nat
+  | CBigBurst len comp cks pos mask go =>
+    match go with
+    | OPanic => 1%nat
+    | OErr => 0%nat
+    | OOk => if (cks =? n_CRC32) && negb (comp =? n_Gzip) && (5 <=? pos) && burst_ok mask
+             then 3%nat else 0%nat
+    end
   end.
 
 Fixpoint classify_from (i : nat) (l : list c15case) : list (nat * nat) :=
